@@ -14,6 +14,7 @@ mod fam_chunk;
 mod msgtext;
 mod fam_msg;
 mod fam_hs;
+mod fam_sess;
 
 #[global_allocator]
 static GLOBAL: alloc::Counting = alloc::Counting;
@@ -25,10 +26,11 @@ pub struct State {
     dead: bool,
     chunk: fam_chunk::ChunkSt,
     hs: fam_hs::HsSt,
+    sess: fam_sess::SessSt,
 }
 
 impl Default for State {
-    fn default() -> Self { State { dead: false, chunk: fam_chunk::ChunkSt::new(), hs: Default::default() } }
+    fn default() -> Self { State { dead: false, chunk: fam_chunk::ChunkSt::new(), hs: Default::default(), sess: fam_sess::SessSt::new() } }
 }
 
 fn exec(st: &mut State, toks: &[&str]) -> String {
@@ -57,7 +59,10 @@ fn exec(st: &mut State, toks: &[&str]) -> String {
                 Some(s) => s,
                 None => match fam_hs::op(&mut st.hs, toks) {
                     Some(s) => s,
-                    None => "bad-op".into(),
+                    None => match fam_sess::op(&mut st.sess, toks) {
+                        Some(s) => s,
+                        None => "bad-op".into(),
+                    },
                 },
             },
         },
